@@ -77,6 +77,12 @@ def hg_run(seed, prop, i, fault_free, collectors=("zero", "copy", "sweep", "swip
         if cfg.random() < 0.4:
             sim["policy"] = "sticky:%d" % cfg.choice([230, 245, 250, 253])
     sim.update(faults)
+    snap = tb.stream(seed, prop, i, "snapshot")
+    if gc == "swiper" and snap.random() < 0.3:
+        # heap snapshots: a stop-the-world operation that walks the whole heap, possibly
+        # while the concurrent sweeper is still at work (no effect on the expected output)
+        script = mh.add_snapshots(script, snap)
+        prof = prof + "+snap"
     return {"index": i, "exe": ["heapgraph", gc, cg, "sim"], "argv": script, "dora_flags": " ".join(flags), "sim": sim,
             "expect": {"rc": 0, "stdout": out, "stderr_empty": True}, "timeout": 300, "fault_free": fault_free,
             "tags": {"gc": gc, "codegen": cg, "profile": prof, "workers": workers, "heap_mb": heap if gc != "zero" else 128,
@@ -102,6 +108,9 @@ def mt_run(seed, prop, i, fault_free, collectors=("copy", "sweep", "swiper"), co
     if gc == "swiper":
         sim["hotsweep"] = cfg.choice([sim["hot"], 20000, 65536])
     sim.update(faults)
+    snap = tb.stream(seed, prop, i, "snapshot")
+    if gc == "swiper" and snap.random() < 0.35:
+        script = mm.add_snapshots(script, snap)
     return {"index": i, "exe": ["mtheap", gc, cg, "sim"], "argv": script, "dora_flags": " ".join(flags), "sim": sim,
             "expect": {"rc": 0, "stdout": out, "stderr_empty": True}, "timeout": 300, "fault_free": fault_free,
             "tags": {"gc": gc, "codegen": cg, "profile": "multithreaded", "threads": t, "workers": workers, "policy": sim["policy"].split(":")[0], "fault_free": fault_free,
@@ -467,6 +476,21 @@ def c03(tier):
     cov["evaluations"] += bw["runs"]
     cov["distinct_nontrivial"] += bw["passed"]
     cov["boots_compiler_as_workload"] = bw
+    # the repository's runnable corpus as workloads (different frame layouts / stack maps /
+    # store shapes per program)
+    import corpus
+    cb = tier_budget(tier, 45, 900) if not os.environ.get("VERIF_BUDGET_S") else float(os.environ["VERIF_BUDGET_S"]) / 2
+    ccov, crep, cec = corpus.corpus_batch(tier, cb, key_fn=heap_key)
+    exit_code = max(exit_code, cec)
+    reported += crep
+    cov["evaluations"] += ccov["sim_runs"]
+    cov["distinct_nontrivial"] += ccov["distinct_nontrivial"]
+    cov["fault_kinds_fired"]["gc_minor@alloc"] += ccov["gc_minor_injected"] + bw["gc_minor_injected"]
+    cov["fault_kinds_fired"]["gc_full@alloc"] += ccov["gc_full_injected"] + bw["gc_full_injected"]
+    cov["fault_kinds_fired"]["alloc_fail_once"] += ccov["alloc_fail_injected"] + bw["alloc_fail_injected"]
+    cov["simulated_time_scheduler_steps"] += ccov["decisions"] + bw["decisions"]
+    cov["repository_corpus_as_workload"] = ccov
+    log("C03 corpus: %d programs checked (%d tried), %d simulated runs, %d passed" % (ccov["programs_checked"], ccov["programs_tried"], ccov["sim_runs"], ccov["passed"]))
     cov["violations_reported"] = reported
     write_evidence("C03", tier, "exploration", cov, time.time() - t0, len(reported), ASSUME_B)
     log("C03 boots-as-workload: %d compilations under fault schedules, %d identical to the reference" % (bw["runs"], bw["passed"]))
@@ -475,6 +499,9 @@ def c03(tier):
 
 def c03_replay(path):
     obj = json.load(open(path))
+    if obj.get("kind") == "corpus":
+        import corpus
+        return corpus.replay(path)
     if obj.get("kind") != "boots-workload":
         return tb.replay_file(path)
     build_repo(("dora", "dora-runtime", "dora-startup"))
